@@ -164,6 +164,10 @@ class C08(Check):
         return st.tuples(st.sampled_from(weights).flatmap(lambda k: table[k]), st.sampled_from((True, True, False))).map(
             lambda t: dict(t[0], dbt_builtins=t[1]))
 
+    def budget_s(self, tier):
+        # safety net only (the case counts are the bound); generous because the box may be shared
+        return 420.0 if tier == "quick" else 1700.0
+
     def examples(self, tier):
         return 400 if tier == "quick" else 20000
 
